@@ -612,7 +612,7 @@ def x_did_types_DIDDocument_Empty : List String := ["return _", "call EmptyDID(d
 def x_did_types_DIDDocument_GetSignBytes : List String := ["return _", "call sdk.MustSortJSON(ModuleCdc.MustMarshalJSON(&doc))", "call ModuleCdc.MustMarshalJSON(&doc)"]
 
 /-- x/did/types.DIDDocument.Valid -/
-def x_did_types_DIDDocument_Valid : List String := ["if doc.Empty()", "call doc.Empty()", "return true", "if !ValidateDID(doc.Id) || doc.VerificationMethods == nil || doc.Authentications == nil", "call ValidateDID(doc.Id)", "return false", "if doc.Controller != nil && !EmptyDIDs(*doc.Controller) && !ValidateDIDs(*doc.Controller)", "call EmptyDIDs(*doc.Controller)", "call ValidateDIDs(*doc.Controller)", "return false", "if doc.Contexts != nil && !ValidateContexts(*doc.Contexts)", "call ValidateContexts(*doc.Contexts)", "return false", "range doc.VerificationMethods", "if !verificationMethod.Valid(doc.Id)", "call verificationMethod.Valid(doc.Id)", "return false", "if !doc.validVerificationRelationships(doc.Authentications)", "call doc.validVerificationRelationships(doc.Authentications)", "return false", "if !doc.validVerificationRelationships(doc.AssertionMethods)", "call doc.validVerificationRelationships(doc.AssertionMethods)", "return false", "if !doc.validVerificationRelationships(doc.KeyAgreements)", "call doc.validVerificationRelationships(doc.KeyAgreements)", "return false", "if !doc.validVerificationRelationships(doc.CapabilityInvocations)", "call doc.validVerificationRelationships(doc.CapabilityInvocations)", "return false", "if !doc.validVerificationRelationships(doc.CapabilityDelegations)", "call doc.validVerificationRelationships(doc.CapabilityDelegations)", "return false", "range doc.Services", "if !service.Valid()", "call service.Valid()", "return false", "return true"]
+def x_did_types_DIDDocument_Valid : List String := ["if doc.Empty()", "call doc.Empty()", "return true", "if !ValidateDID(doc.Id) || doc.VerificationMethods == nil || doc.Authentications == nil", "call ValidateDID(doc.Id)", "return false", "if doc.Controller != nil && len(*doc.Controller) == 0", "call len(*doc.Controller)", "lit 0", "return false", "if doc.Controller != nil && !EmptyDIDs(*doc.Controller) && !ValidateDIDs(*doc.Controller)", "call EmptyDIDs(*doc.Controller)", "call ValidateDIDs(*doc.Controller)", "return false", "if doc.Contexts != nil && !ValidateContexts(*doc.Contexts)", "call ValidateContexts(*doc.Contexts)", "return false", "range doc.VerificationMethods", "if !verificationMethod.Valid(doc.Id)", "call verificationMethod.Valid(doc.Id)", "return false", "if !doc.validVerificationRelationships(doc.Authentications)", "call doc.validVerificationRelationships(doc.Authentications)", "return false", "if !doc.validVerificationRelationships(doc.AssertionMethods)", "call doc.validVerificationRelationships(doc.AssertionMethods)", "return false", "if !doc.validVerificationRelationships(doc.KeyAgreements)", "call doc.validVerificationRelationships(doc.KeyAgreements)", "return false", "if !doc.validVerificationRelationships(doc.CapabilityInvocations)", "call doc.validVerificationRelationships(doc.CapabilityInvocations)", "return false", "if !doc.validVerificationRelationships(doc.CapabilityDelegations)", "call doc.validVerificationRelationships(doc.CapabilityDelegations)", "return false", "range doc.Services", "if !service.Valid()", "call service.Valid()", "return false", "return true"]
 
 /-- x/did/types.DIDDocument.VerificationMethodByID -/
 def x_did_types_DIDDocument_VerificationMethodByID : List String := ["range doc.VerificationMethods", "if verificationMethod.Id == id", "return _,true", "return _,false"]
